@@ -59,6 +59,7 @@ func c05(c *core.Check) {
 	c.Explain = "Structural necessary conditions of selector matching and weighing, decided on the type-checked source: the vocabularies of the parser and of the three panicking Match dispatchers agree; each kind of simple selector has the Selectors-4 specificity constant and :is/:not/:has take the most specific argument; the dispatch tables (combinator → relation, attribute operator → predicate, structural pseudo-class name → (a,b,last,ofType)) are the Selectors tables; tag names, attribute names and pseudo-class names are ASCII-lowercased and the i flag reaches every value comparison; the substring and word operators cannot return true for an empty value; every String() method that writes a value between quotes escapes it, and every pseudo-class name a String() method prints is accepted by the parser; an+b division is guarded. The matching semantics themselves (sibling walks, an+b arithmetic, :empty) are not decided."
 	c05EscapedSet(c)
 	c05SliceGuards(c)
+	c05HexEscapes(c)
 	r13 := c.Rule("R13", "a rule weighs as its most specific matching selector: the consumer of the selector lists (html/tree.matcher.match) tests every selector of a list and records a result for each one that matches, with that selector's own specificity (shared with C03.R7)", 3)
 	c03Matcher(c, r13)
 	rArgs := c.Rule("R11", "no call passes two same-typed arguments under each other's parameter names (swapped arguments): every pair of arguments named after the callee's parameters is aligned with them", 7)
